@@ -13,9 +13,15 @@ Inductive oreply :=
 | OHang                  (* no end of stream within the server's timeouts *)
 | OGarbage.              (* anything else: mixed statuses, reset after frames, undecodable body *)
 
+(** the proxy's failure mode per kind of context-taking store call (HasAt returns a bare bool
+    and is never faulted) *)
+Record kmodes := KModes { m_head : fault; m_range : fault; m_get : fault }.
+Definition kf_of (m : kmodes) : kfault :=
+  fun k => match k with KHead => m_head m | KGetRange => m_range m | KGet => m_get m | _ => FNone end.
+
 Record case10 := Case10 {
   k_st : store;                      (* the real store's content, read back by the harness *)
-  k_fault : fault;                   (* fault mode of the proxy *)
+  k_fault : kmodes;                  (* fault modes of the proxy: Head, GetRange, Get *)
   k_req : req;                       (* the request as decoded from the bytes sent *)
   k_reply : oreply;
   k_ranges : list (N * N * N);       (* proxy log: range reads (from, to, headers returned) *)
@@ -28,7 +34,9 @@ Record case10 := Case10 {
   k_other : N;                       (* proxy log: Append/DeleteRange/OnDelete calls *)
   k_hook : ckind;                    (* the store was changed (headers appended / pruned) right after the
                                         first call of this kind returned to the server ... *)
-  k_st2 : option store               (* ... and this is its content from then on (None: it never changed) *)
+  k_st2 : option store;              (* ... and this is its content from then on (None: it never changed) *)
+  k_timeout : N;                     (* the server's configured RequestTimeout, ms *)
+  k_elapsed : N                      (* virtual time from opening the stream to the end of the reply, ms *)
 }.
 
 (** compact rendering of a hash-linked run, as the harness builds them: consecutive
@@ -70,11 +78,28 @@ Definition touched (st : store) (cs : list call) : list N :=
 
 Definition as_found (l : list N) : list (N * bool) := map (fun n => (n, true)) l.
 
+(** the instant of the reply.  Besides the proxy's blocking mode, a HEALTHY store can make
+    GetRange wait: Store.getRangeByHeight reads its top height with GetByHeight, which
+    subscribes to heightSub when that height is above the store's head and waits until the
+    context ends (then context.DeadlineExceeded -> NOT_FOUND).  The server only asks for
+    tops <= head, so this needs the head to be deleted between HasAt/Head and GetRange. *)
+Definition range_waits (S : store) (c : call) : bool :=
+  match c with CGetRange _ t _ _ => head_h S <? t - 1 | _ => false end.
+Definition dur10 (kf : kfault) (S : store) (T : N) (c : call) : N :=
+  match fault_of kf c with
+  | FSlow => T
+  | FErr => 0
+  | FNone => if range_waits S c then T else 0
+  end.
+(** the content GetRange sees: after HasAt, or after HasAt and Head *)
+Definition range_store (e : env) (cs : list call) : store :=
+  match cs with [_; _] => e [KHasAt] | _ => e [KHasAt; KHead] end.
+
 (** the model's observation for the inputs of a case *)
-Definition model10 (st : store) (f : fault) (rq : req) : case10 :=
-  let '(r, cs) := handle f st rq in
-  Case10 st f rq (obs_reply r) (obs_ranges cs) (get_calls cs) (as_found (touched st cs))
-         (N.of_nat (length (filter is_o1 cs))) 0 KGet None.
+Definition model10 (st : store) (m : kmodes) (rq : req) (T : N) : case10 :=
+  let '(r, cs) := handle_k (kf_of m) st rq in
+  Case10 st m rq (obs_reply r) (obs_ranges cs) (get_calls cs) (as_found (touched st cs))
+         (N.of_nat (length (filter is_o1 cs))) 0 KGet None T (finish T (dur10 (kf_of m) st T) 0 cs).
 
 (** the store content each call sees when it changes once, after the first [hook] call *)
 Definition ckind_eqb (a b : ckind) : bool :=
@@ -85,10 +110,10 @@ Definition ckind_eqb (a b : ckind) : bool :=
 Definition env2 (hook : ckind) (st1 st2 : store) : env :=
   fun hist => if existsb (ckind_eqb hook) hist then st2 else st1.
 
-Definition model10_d (st1 : store) (hook : ckind) (st2 : store) (f : fault) (rq : req) : case10 :=
-  let '(r, cs) := handle_d f (env2 hook st1 st2) rq in
-  Case10 st1 f rq (obs_reply r) (obs_ranges cs) (get_calls cs) (as_found (touched st1 cs))
-         (N.of_nat (length (filter is_o1 cs))) 0 hook (Some st2).
+Definition model10_d (st1 : store) (hook : ckind) (st2 : store) (m : kmodes) (rq : req) (T : N) : case10 :=
+  let '(r, cs) := handle_dk (kf_of m) (env2 hook st1 st2) rq in
+  Case10 st1 m rq (obs_reply r) (obs_ranges cs) (get_calls cs) (as_found (touched st1 cs))
+         (N.of_nat (length (filter is_o1 cs))) 0 hook (Some st2) T (finish T (dur10 (kf_of m) (range_store (env2 hook st1 st2) cs) T) 0 cs).
 
 Definition mem (x : N) (l : list N) : bool := existsb (N.eqb x) l.
 Fixpoint dedup (l : list N) : list N :=
@@ -123,7 +148,9 @@ Definition agree_with (m c : case10) : bool :=
   && list_eqb triple_eqb (norm_ranges (k_ranges m)) (norm_ranges (k_ranges c))
   && list_eqb N.eqb (k_gets m) (k_gets c)
   (* caches and the write batch may spare the datastore a read, so: subset; a miss reads no header *)
-  && forallb (fun d => negb (snd d) || mem (fst d) (map fst (k_disk m))) (k_disk c).
+  && forallb (fun d => negb (snd d) || mem (fst d) (map fst (k_disk m))) (k_disk c)
+  (* the instant of the reply: at once, or exactly at the request deadline when a call blocked *)
+  && (k_elapsed m =? k_elapsed c).
 
 (** ** the property, as a check of an observation (no use of [handle]) *)
 
@@ -179,27 +206,35 @@ Definition no_reads (c : case10) : bool :=
 Definition ok10_s (c : case10) : bool :=
   let st := k_st c in
   let r := k_reply c in
-  let healthy := match k_fault c with FNone => true | _ => false end in
-  is_answer r && (k_other c =? 0) && (k_o1 c <=? 8)
+  let m := k_fault c in
+  (* no hang beyond the timeouts: the reply is complete by RequestTimeout *)
+  is_answer r && (k_elapsed c <=? k_timeout c) && (k_other c =? 0) && (k_o1 c <=? 8)
   && match k_req c with
      | RInvalid => is_refusal r && no_reads c
      | RHash id _ =>
+       let healthy := is_none (m_get m) in
        match k_ranges c with [] => true | _ => false end
        && forallb (N.eqb id) (k_gets c) && (N.of_nat (length (k_gets c)) <=? 1)
        && (N.of_nat (length (dedup (map fst (k_disk c)))) <=? 1)
+       && (healthy || is_refusal r)
        && match stored st id with
           | Some _ => oreply_eqb r (OOk [id]) || (negb healthy && is_refusal r)
           | None => is_refusal r
           end
      | ROrigin o a =>
        if o =? 0 then
+         let healthy := is_none (m_head m) in
          no_reads c
+         && (healthy || is_refusal r)
          && match head_id st with
             | Some hid => oreply_eqb r (OOk [hid]) || ((negb healthy || (a =? 0)) && is_refusal r)
             | None => is_refusal r
             end
        else
+         let healthy := is_none (m_head m) && is_none (m_range m) in
          ok_shape st o a r
+         (* no range answer when GetRange fails or blocks *)
+         && (is_none (m_range m) || is_refusal r)
          && ok_reads st o a (k_ranges c) (k_gets c)
          && ok_disk o a (k_disk c)
          (* a well-formed request inside Tail..Head is served *)
@@ -234,33 +269,38 @@ Definition has_id (st : store) (id : N) : bool := match stored st id with Some _
 Definition ok10_d (c : case10) (st2 : store) : bool :=
   let st1 := k_st c in
   let r := k_reply c in
-  let healthy := match k_fault c with FNone => true | _ => false end in
-  is_answer r && (k_other c =? 0) && (k_o1 c <=? 8)
+  let m := k_fault c in
+  is_answer r && (k_elapsed c <=? k_timeout c) && (k_other c =? 0) && (k_o1 c <=? 8)
   && match k_req c with
      | RInvalid => is_refusal r && no_reads c
      | RHash id _ =>
+       let healthy := is_none (m_get m) in
        match k_ranges c with [] => true | _ => false end
        && forallb (N.eqb id) (k_gets c) && (N.of_nat (length (k_gets c)) <=? 1)
        && (N.of_nat (length (dedup (map fst (k_disk c)))) <=? 1)
+       && (healthy || is_refusal r)
        && ((oreply_eqb r (OOk [id]) && (has_id st1 id || has_id st2 id))
            || (is_refusal r && (negb healthy || negb (has_id st1 id) || negb (has_id st2 id))))
      | ROrigin o a =>
        if o =? 0 then
+         let healthy := is_none (m_head m) in
          no_reads c
+         && (healthy || is_refusal r)
          && (head_is r st1 || head_is r st2
              || (is_refusal r && (negb healthy || (a =? 0) || negb (nonempty st1) || negb (nonempty st2))))
        else
          ok_shape_d st1 st2 o a r
+         && (is_none (m_range m) || is_refusal r)
          && ok_reads st1 o a (k_ranges c) (k_gets c) && ok_reads st2 o a (k_ranges c) (k_gets c)
          && ok_disk o a (k_disk c)
      end.
 
 Definition agree10 (c : case10) : bool :=
   match k_st2 c with
-  | None => wf_storeb (k_st c) && agree_with (model10 (k_st c) (k_fault c) (k_req c)) c
+  | None => wf_storeb (k_st c) && agree_with (model10 (k_st c) (k_fault c) (k_req c) (k_timeout c)) c
   | Some st2 =>
     wf_storeb (k_st c) && wf_storeb st2
-    && agree_with (model10_d (k_st c) (k_hook c) st2 (k_fault c) (k_req c)) c
+    && agree_with (model10_d (k_st c) (k_hook c) st2 (k_fault c) (k_req c) (k_timeout c)) c
   end.
 
 Definition ok10 (c : case10) : bool :=
@@ -316,23 +356,6 @@ Proof.
     exists h. split; [exact Hn|]. cbn [Nat.add]. rewrite <- Hht. apply id_at_chain; assumption.
 Qed.
 
-Lemma handle_range_log f st from to :
-  get_calls (snd (handle_range f st from to)) = []
-  /\ (length (filter is_o1 (snd (handle_range f st from to))) <= 2)%nat.
-Proof.
-  unfold handle_range.
-  destruct (to <=? from); [cbn; split; [reflexivity|lia]|].
-  destruct (from =? 0); [cbn; split; [reflexivity|lia]|].
-  destruct (max_req <? sub64 to from); [cbn; split; [reflexivity|lia]|].
-  destruct (has_at st (sub64 to 1)).
-  - destruct (serve_range_calls f st from to [CHasAt (sub64 to 1)]) as (rd & n & ->). cbn. split; [reflexivity|lia].
-  - destruct (call_head f st) as [hd|e|]; [|cbn; split; [reflexivity|lia]..].
-    destruct (h_height hd <? from); [cbn; split; [reflexivity|lia]|].
-    destruct (sub64 to 1 <=? h_height hd); [cbn; split; [reflexivity|lia]|].
-    destruct (serve_range_calls f st from (wrap64 (h_height hd + 1)) [CHasAt (sub64 to 1); CHead]) as (rd & n & ->).
-    cbn. split; [reflexivity|lia].
-Qed.
-
 Lemma reads_ok_b st o a (cs : list (N * N * list N * N)) :
   (length cs <= 1)%nat -> Forall (range_args_ok o a) cs ->
   ok_reads st o a (map (fun c => let '(f, t, _, n) := c in (f, t, n)) cs) [] = true.
@@ -370,42 +393,89 @@ Proof.
     + intros n Hn. specialize (Hin n Hn). lia.
 Qed.
 
-Theorem model10_ok : forall st f rq, wf_store st -> req_bounded rq -> ok10 (model10 st f rq) = true.
+Lemma handle_range_dk_log kf e from to :
+  get_calls (snd (handle_range_dk kf e from to)) = []
+  /\ (length (filter is_o1 (snd (handle_range_dk kf e from to))) <= 2)%nat.
 Proof.
-  intros st f rq wf Hb. unfold ok10. replace (k_st2 (model10 st f rq)) with (@None store) by (unfold model10; destruct (handle f st rq); reflexivity).
-  revert st f rq wf Hb.
-  change (forall st f rq, wf_store st -> req_bounded rq -> ok10_s (model10 st f rq) = true).
-  intros st f rq wf Hb. unfold model10.
-  pose proof (handle_total f st rq) as Htot.
+  unfold handle_range_dk.
+  destruct (to <=? from); [cbn; split; [reflexivity|lia]|].
+  destruct (from =? 0); [cbn; split; [reflexivity|lia]|].
+  destruct (max_req <? sub64 to from); [cbn; split; [reflexivity|lia]|].
+  destruct (has_at (e []) (sub64 to 1)).
+  - destruct (serve_range_calls (kf KGetRange) (e [KHasAt]) from to [CHasAt (sub64 to 1)]) as (rd & n & ->). cbn. split; [reflexivity|lia].
+  - destruct (call_head (kf KHead) (e [KHasAt])) as [hd|x|]; [|cbn; split; [reflexivity|lia]..].
+    destruct (h_height hd <? from); [cbn; split; [reflexivity|lia]|].
+    destruct (sub64 to 1 <=? h_height hd); [cbn; split; [reflexivity|lia]|].
+    destruct (serve_range_calls (kf KGetRange) (e [KHasAt; KHead]) from (wrap64 (h_height hd + 1)) [CHasAt (sub64 to 1); CHead]) as (rd & n & ->).
+    cbn. split; [reflexivity|lia].
+Qed.
+
+Lemma handle_range_k_log kf st from to :
+  get_calls (snd (handle_range_k kf st from to)) = []
+  /\ (length (filter is_o1 (snd (handle_range_k kf st from to))) <= 2)%nat.
+Proof. exact (handle_range_dk_log kf (fun _ => st) from to). Qed.
+
+Lemma handle_range_k_ext kf kf' st from to :
+  kf KHead = kf' KHead -> kf KGetRange = kf' KGetRange ->
+  handle_range_k kf st from to = handle_range_k kf' st from to.
+Proof. intros H1 H2. unfold handle_range_k. rewrite H1, H2. reflexivity. Qed.
+
+Lemma finish_leb T d cs : (finish T d 0 cs <=? T) = true.
+Proof. apply N.leb_le. apply finish_le. apply N.le_0_l. Qed.
+
+Lemma refusal_obs r : r = Reset \/ r = NotFound -> is_refusal (obs_reply r) = true.
+Proof. intros [-> | ->]; reflexivity. Qed.
+
+Lemma range_refused_b m e o a : 1 <= o ->
+  is_none (m_range m) || is_refusal (obs_reply (fst (handle_dk (kf_of m) e (ROrigin o a)))) = true.
+Proof.
+  intro Ho. destruct (m_range m) eqn:E; [reflexivity|..]; cbn [is_none orb]; apply refusal_obs;
+    destruct (failure_refused_by_kind_dk (kf_of m) e) as (_ & _ & H);
+    (destruct (H o a) as [->| ->]; [cbn; rewrite E; discriminate | exact Ho | auto | auto]).
+Qed.
+
+Theorem model10_ok : forall st m rq T, wf_store st -> req_bounded rq -> ok10 (model10 st m rq T) = true.
+Proof.
+  intros st m rq T wf Hb. unfold ok10.
+  replace (k_st2 (model10 st m rq T)) with (@None store) by (unfold model10; destruct (handle_k (kf_of m) st rq); reflexivity).
+  unfold model10.
+  pose proof (handle_k_total (kf_of m) st rq) as Htot.
   destruct rq as [o a|id a|].
   - destruct Hb as [Ho Ha].
-    pose proof (origin_bounded_calls f st o a Ho Ha) as [Hlen Hargs].
-    pose proof (origin_bounded_reads f st o a wf Ho Ha) as Hreads.
-    rewrite handle_fst_snd in *. cbn [fst snd] in *.
-    destruct (handle_range_log f st o (wrap64 (o + a))) as [Hgets Ho1].
-    set (hr := handle_range f st o (wrap64 (o + a))) in *.
-    unfold ok10_s, touched. cbn [k_st k_reply k_fault k_req k_other k_o1 k_ranges k_gets k_disk].
-    rewrite (obs_is_answer _ Htot). rewrite Hgets. cbn [andb N.eqb map].
+    pose proof (origin_bounded_calls_k (kf_of m) st o a Ho Ha) as [Hlen Hargs].
+    pose proof (origin_bounded_reads_k (kf_of m) st o a wf Ho Ha) as Hreads.
+    pose proof (fun H => range_refused_b m (fun _ => st) o a H) as Hrefused.
+    rewrite static_is_instance_k in Hrefused.
+    rewrite handle_k_fst_snd in *. cbn [fst snd] in *.
+    destruct (handle_range_k_log (kf_of m) st o (wrap64 (o + a))) as [Hgets Ho1].
+    set (hr := handle_range_k (kf_of m) st o (wrap64 (o + a))) in *.
+    unfold ok10_s, touched. cbn [k_st k_reply k_fault k_req k_other k_o1 k_ranges k_gets k_disk k_timeout k_elapsed].
+    rewrite (obs_is_answer _ Htot). rewrite finish_leb. rewrite Hgets. cbn [andb N.eqb map].
     replace (N.of_nat (length (filter is_o1 (snd hr))) <=? 8) with true by lia. cbn [andb].
     destruct (N.eqb_spec o 0) as [->|Ho0].
     + (* head request *)
       subst hr. unfold no_reads, obs_ranges, as_found. cbn [k_ranges k_gets k_disk].
-      unfold handle_range. rewrite N.add_0_l, wrap64_small by exact Ha.
+      unfold handle_range_k. rewrite N.add_0_l, wrap64_small by exact Ha.
       destruct (N.leb_spec a 0) as [Hz|Hpos].
-      * assert (a = 0) as -> by lia. cbn. destruct (head_id st); [rewrite orb_true_r|]; reflexivity.
-      * cbn [N.eqb]. unfold handle_head, call_head, head_id. cbn [snd range_calls map fst heights_read concat app].
-        destruct f; cbn [fst status fault_err obs_reply].
+      * assert (a = 0) as -> by lia. cbn. rewrite orb_true_r. destruct (head_id st); [rewrite orb_true_r|]; reflexivity.
+      * cbn [N.eqb]. unfold handle_head, call_head, head_id. cbn [snd range_calls map fst heights_read concat app kf_of].
+        destruct (m_head m); cbn [fst status fault_err obs_reply is_none orb andb negb is_refusal].
         -- destruct (head_of st) as [h|]; cbn; [rewrite N.eqb_refl|]; reflexivity.
         -- destruct (head_of st); reflexivity.
         -- destruct (head_of st); reflexivity.
-    + pose proof (origin_reply_shape f st o a wf ltac:(lia) Ho Ha) as Hshape.
-      rewrite handle_fst_snd in Hshape. cbn [fst] in Hshape. fold hr in Hshape.
+    + pose proof (origin_reply_shape_k (kf_of m) st o a wf ltac:(lia) Ho Ha) as Hshape.
+      rewrite handle_k_fst_snd in Hshape. cbn [fst] in Hshape. fold hr in Hshape.
       rewrite (shape_ok st o a _ wf Hshape). cbn [andb].
+      rewrite Hrefused by lia. cbn [andb].
       unfold obs_ranges. rewrite (reads_ok_b st o a _ Hlen Hargs). cbn [andb].
       rewrite (disk_ok_b o a _ ltac:(lia) Hreads). cbn [andb].
-      destruct f; cbn [negb andb orb]; try reflexivity.
+      destruct (m_head m) eqn:EH; cbn [is_none negb andb orb]; try reflexivity.
+      destruct (m_range m) eqn:EG; cbn [is_none negb andb orb]; try reflexivity.
       pose proof (origin_reply_exact st o a wf ltac:(lia) Ho Ha) as Hex.
-      rewrite handle_fst_snd in Hex. cbn [fst] in Hex. fold hr in Hex. rewrite Hex.
+      rewrite handle_fst_snd in Hex. cbn [fst] in Hex.
+      replace (handle_range FNone st o (wrap64 (o + a))) with hr in Hex
+        by (subst hr; apply handle_range_k_ext; cbn; assumption).
+      rewrite Hex.
       unfold range_reply, nonempty, is_empty.
       destruct (s_chain st) eqn:Ech; [reflexivity|]. cbn [andb].
       destruct (N.leb_spec 1 a), (N.leb_spec a max_req), (N.ltb_spec (o + a) two64),
@@ -413,15 +483,16 @@ Proof.
       destruct (N.eqb_spec a 0); [lia|]. destruct (N.leb_spec two64 (o + a)); [lia|].
       destruct (N.ltb_spec max_req a); [lia|]. cbn [orb].
       destruct (N.ltb_spec o (tail_h st)); [lia|]. destruct (N.ltb_spec (head_h st) o); [lia|]. reflexivity.
-  - cbn [handle handle_hash].
+  - cbn [handle_k handle_hash].
     unfold ok10_s, touched, as_found. cbn [k_st k_reply k_fault k_req k_other k_o1 k_ranges k_gets k_disk obs_ranges range_calls map get_calls
-                               filter is_o1 length heights_read concat app dedup mem existsb].
-    cbn [forallb andb N.of_nat N.eqb N.leb].
+                               filter is_o1 length heights_read concat app dedup mem existsb k_timeout k_elapsed].
+    rewrite finish_leb.
+    cbn [forallb andb N.of_nat N.eqb N.leb kf_of].
     unfold stored, get_hash.
     destruct (find (fun h => h_id h =? id) (all_hdrs st)) as [h|] eqn:E.
-    + apply find_some in E as [_ E]. destruct f; cbn; rewrite ?E, ?N.eqb_refl; reflexivity.
-    + destruct f; cbn; rewrite ?N.eqb_refl; reflexivity.
-  - reflexivity.
+    + apply find_some in E as [_ E]. destruct (m_get m); cbn; rewrite ?E, ?N.eqb_refl; reflexivity.
+    + destruct (m_get m); cbn; rewrite ?N.eqb_refl; reflexivity.
+  - destruct T; reflexivity.
 Qed.
 
 (** ** the tie, for a store that changes during the request *)
@@ -460,66 +531,52 @@ Proof.
   destruct (env2_cases hook st1 st2 [KHasAt]) as [E|E]; rewrite E in Eh; lia.
 Qed.
 
-Lemma handle_range_d_log f e from to :
-  get_calls (snd (handle_range_d f e from to)) = []
-  /\ (length (filter is_o1 (snd (handle_range_d f e from to))) <= 2)%nat.
+Theorem model10_d_ok : forall st1 hook st2 m rq T, wf_store st1 -> wf_store st2 -> req_bounded rq ->
+  ok10 (model10_d st1 hook st2 m rq T) = true.
 Proof.
-  unfold handle_range_d.
-  destruct (to <=? from); [cbn; split; [reflexivity|lia]|].
-  destruct (from =? 0); [cbn; split; [reflexivity|lia]|].
-  destruct (max_req <? sub64 to from); [cbn; split; [reflexivity|lia]|].
-  destruct (has_at (e []) (sub64 to 1)).
-  - destruct (serve_range_calls f (e [KHasAt]) from to [CHasAt (sub64 to 1)]) as (rd & n & ->). cbn. split; [reflexivity|lia].
-  - destruct (call_head f (e [KHasAt])) as [hd|x|]; [|cbn; split; [reflexivity|lia]..].
-    destruct (h_height hd <? from); [cbn; split; [reflexivity|lia]|].
-    destruct (sub64 to 1 <=? h_height hd); [cbn; split; [reflexivity|lia]|].
-    destruct (serve_range_calls f (e [KHasAt; KHead]) from (wrap64 (h_height hd + 1)) [CHasAt (sub64 to 1); CHead]) as (rd & n & ->).
-    cbn. split; [reflexivity|lia].
-Qed.
-
-Theorem model10_d_ok : forall st1 hook st2 f rq, wf_store st1 -> wf_store st2 -> req_bounded rq ->
-  ok10 (model10_d st1 hook st2 f rq) = true.
-Proof.
-  intros st1 hook st2 f rq wf1 wf2 Hb. unfold ok10.
-  replace (k_st2 (model10_d st1 hook st2 f rq)) with (Some st2)
-    by (unfold model10_d; destruct (handle_d f (env2 hook st1 st2) rq); reflexivity).
+  intros st1 hook st2 m rq T wf1 wf2 Hb. unfold ok10.
+  replace (k_st2 (model10_d st1 hook st2 m rq T)) with (Some st2)
+    by (unfold model10_d; destruct (handle_dk (kf_of m) (env2 hook st1 st2) rq); reflexivity).
   unfold model10_d. set (e := env2 hook st1 st2).
-  pose proof (handle_d_total f e rq) as Htot.
+  pose proof (handle_d_totalk (kf_of m) e rq) as Htot.
   pose proof (env2_wf hook st1 st2 wf1 wf2) as wfe. fold e in wfe.
   destruct rq as [o a|id a|].
   - destruct Hb as [Ho Ha].
-    pose proof (origin_bounded_calls_d f e o a Ho Ha) as [Hlen Hargs].
-    pose proof (origin_bounded_reads_d f e o a wfe Ho Ha) as Hreads.
-    rewrite handle_d_fst_snd in *. cbn [fst snd] in *.
-    destruct (handle_range_d_log f e o (wrap64 (o + a))) as [Hgets Ho1].
-    set (hr := handle_range_d f e o (wrap64 (o + a))) in *.
-    unfold ok10_d, touched. cbn [k_st k_reply k_fault k_req k_other k_o1 k_ranges k_gets k_disk].
-    rewrite (obs_is_answer _ Htot). rewrite Hgets. cbn [andb N.eqb map].
+    pose proof (origin_bounded_calls_dk (kf_of m) e o a Ho Ha) as [Hlen Hargs].
+    pose proof (origin_bounded_reads_dk (kf_of m) e o a wfe Ho Ha) as Hreads.
+    pose proof (fun H => range_refused_b m e o a H) as Hrefused.
+    rewrite handle_dk_fst_snd in *. cbn [fst snd] in *.
+    destruct (handle_range_dk_log (kf_of m) e o (wrap64 (o + a))) as [Hgets Ho1].
+    set (hr := handle_range_dk (kf_of m) e o (wrap64 (o + a))) in *.
+    unfold ok10_d, touched. cbn [k_st k_reply k_fault k_req k_other k_o1 k_ranges k_gets k_disk k_timeout k_elapsed].
+    rewrite (obs_is_answer _ Htot). rewrite finish_leb. rewrite Hgets. cbn [andb N.eqb map].
     replace (N.of_nat (length (filter is_o1 (snd hr))) <=? 8) with true by lia. cbn [andb].
     destruct (N.eqb_spec o 0) as [->|Ho0].
     + subst hr. unfold no_reads, obs_ranges, as_found. cbn [k_ranges k_gets k_disk].
-      unfold handle_range_d. rewrite N.add_0_l, wrap64_small by exact Ha.
+      unfold handle_range_dk. rewrite N.add_0_l, wrap64_small by exact Ha.
       destruct (N.leb_spec a 0) as [Hz|Hpos].
       * assert (a = 0) as -> by lia. cbn. rewrite !orb_true_r. reflexivity.
       * cbn [N.eqb]. replace (e []) with st1 by reflexivity.
-        unfold handle_head, call_head, head_is, head_id. cbn [snd range_calls map fst heights_read concat app].
-        destruct f; cbn [fst status fault_err obs_reply].
+        unfold handle_head, call_head, head_is, head_id. cbn [snd range_calls map fst heights_read concat app kf_of].
+        destruct (m_head m); cbn [fst status fault_err obs_reply is_none orb andb negb is_refusal].
         -- unfold nonempty, head_of. destruct (s_chain st1) as [|t r]; cbn; [rewrite !orb_true_r; reflexivity|].
            rewrite N.eqb_refl. reflexivity.
         -- cbn. rewrite !orb_true_r. reflexivity.
         -- cbn. rewrite !orb_true_r. reflexivity.
-    + pose proof (origin_reply_shape_d f e o a wfe ltac:(lia) Ho Ha) as Hshape.
-      rewrite handle_d_fst_snd in Hshape. cbn [fst] in Hshape. fold hr in Hshape.
+    + pose proof (origin_reply_shape_dk (kf_of m) e o a wfe ltac:(lia) Ho Ha) as Hshape.
+      rewrite handle_dk_fst_snd in Hshape. cbn [fst] in Hshape. fold hr in Hshape.
       rewrite (shape_ok_d hook st1 st2 o a _ Hshape). cbn [andb].
+      rewrite Hrefused by lia. cbn [andb].
       unfold obs_ranges. rewrite (reads_ok_b st1 o a _ Hlen Hargs), (reads_ok_b st2 o a _ Hlen Hargs). cbn [andb].
       apply (disk_ok_b o a _ ltac:(lia) Hreads).
-  - cbn [handle_d handle_hash]. replace (e []) with st1 by reflexivity.
+  - cbn [handle_dk handle_hash]. replace (e []) with st1 by reflexivity.
     unfold ok10_d, touched, as_found. cbn [k_st k_reply k_fault k_req k_other k_o1 k_ranges k_gets k_disk obs_ranges range_calls map get_calls
-                                 filter is_o1 length heights_read concat app dedup mem existsb].
-    cbn [forallb andb N.of_nat N.eqb N.leb].
+                                 filter is_o1 length heights_read concat app dedup mem existsb k_timeout k_elapsed].
+    rewrite finish_leb.
+    cbn [forallb andb N.of_nat N.eqb N.leb kf_of].
     unfold has_id, stored, get_hash.
     destruct (find (fun h => h_id h =? id) (all_hdrs st1)) as [h|] eqn:E.
-    + apply find_some in E as [_ E]. destruct f; cbn; rewrite ?E, ?N.eqb_refl; cbn; rewrite ?orb_true_r; reflexivity.
-    + destruct f; cbn; rewrite ?N.eqb_refl; cbn; rewrite ?orb_true_r; reflexivity.
-  - reflexivity.
+    + apply find_some in E as [_ E]. destruct (m_get m); cbn; rewrite ?E, ?N.eqb_refl; cbn; rewrite ?orb_true_r; reflexivity.
+    + destruct (m_get m); cbn; rewrite ?N.eqb_refl; cbn; rewrite ?orb_true_r; reflexivity.
+  - destruct T; reflexivity.
 Qed.
